@@ -31,7 +31,7 @@ from vf.gen import species as SG
 from vf.ref import poly
 
 ID = 'C13'
-N = {'quick': 3000, 'thorough': 100000}
+N = {'quick': 3000, 'thorough': 300000}
 NT_RULE = ('species class x phase spelling x 0-4 user supplied models in random order (GasPressureAdj present or '
            'not, PiecewiseCovEffect on 1-3 species j with coverages in <name_j>_kwargs, ConstantMode) x '
            'add_gas_P_adj x misc_models None/[]/list x copy/deepcopy x 0-3 from_dict / JSON cycles x list shared '
@@ -63,7 +63,9 @@ ASSUMPTIONS = [
     'when a ConstantMode is attached (its own G attribute is independent of its H and S)',
     'a species built with add_gas_P_adj=False and then reloaded is telemetry only (to_dict does not carry the flag)',
     'return shapes are normalised (size-1 array vs scalar is shape, not value)',
-    'CNT counts the model getters of Cp, H, S (G is H - S and may legitimately be assembled either way)']
+    'CNT counts the model getters of Cp, H, S (G is H - S and may legitimately be assembled either way); it presumes '
+    'that models are evaluated one temperature at a time, as _get_mix_quantity does (a vectorised rewrite would '
+    'need CNT restated as one call per model per evaluation)']
 
 Q = ['CpoR', 'HoRT', 'SoR', 'GoRT']
 NAMES = ['O(S)', 'CO(S)', 'CO2(S)', 'H(S)', 'OH(S)', 'N(S)', 'CH3(S)']
@@ -548,7 +550,7 @@ class _Eval:
                         continue
                     shift = sign * math.log(P) if carries else 0.0
                     ctx.close('M3', np.ravel(np.asarray(v, dtype=float)), ref + shift, 1e-10,
-                              dict(mech, P='given', carries_adj=carries), P=P)
+                              dict(mech, P='given'), P=P, carries_adj=carries)
 
 
 def _reload(ctx, obj, op, mech):
@@ -575,6 +577,8 @@ def run_case(spec, ctx):
     user = spec['models']
     n_models = len(models)
     base = {'class': cls, 'phase_spelling': str(phase), 'n_models': bucket(n_models)}
+    if spec.get('share') and user is not None:
+        base['shared_list'] = True          # the same list object is also handed to a second species
     # ---- input classes
     ctx.cls('class:' + cls, 'phase:%s' % phase, 'n_models:' + bucket(n_models))
     ctx.cls('misc:None' if user is None else ('misc:list' if user else 'misc:empty_list'))
@@ -680,7 +684,7 @@ def run_case(spec, ctx):
         ctx.check('M2', _count_adj(obj) == want_adj, dict(sh_mech, which='first'), got=_count_adj(obj),
                   want=want_adj)
         ev2 = _Eval(ctx, spec, dict(sp, phase=ph2), models2,
-                    dict(base, phase_spelling=str(ph2), n_models=bucket(len(models2)), shared_list=True))
+                    dict(base, phase_spelling=str(ph2), n_models=bucket(len(models2))))
         ev2.m1(other, hist, spec['Ts'][:1], spec['arrays'][:1])
         ev2.m3(other, hist, spec['Ts'], spec['arrays'])
     # ---- constructed object: every temperature input
